@@ -36,13 +36,16 @@ pub struct RfcOracle {
     eqn_checks: u64,
     slowstart_checks: u64,
     leave_slowstart: u64,
+    /// connections for which a loss event rate above zero has been reported
+    loss_seen: std::collections::BTreeSet<(usize, u64)>,
+    loss_in_slowstart_checks: u64,
     rtt_zero: u64,
     idle_checks: u64,
 }
 
 impl RfcOracle {
     pub fn new(property: &'static str) -> Self {
-        Self { property, ceilings: BTreeMap::new(), last_x: BTreeMap::new(), feedback_in_call: BTreeMap::new(), rate_started: Default::default(), report_given: None, report_taken: None, reports_checked: 0, feedbacks: 0, expiries: 0, eqn_checks: 0, slowstart_checks: 0, leave_slowstart: 0, rtt_zero: 0, idle_checks: 0 }
+        Self { property, ceilings: BTreeMap::new(), last_x: BTreeMap::new(), feedback_in_call: BTreeMap::new(), rate_started: Default::default(), report_given: None, report_taken: None, reports_checked: 0, feedbacks: 0, expiries: 0, eqn_checks: 0, slowstart_checks: 0, leave_slowstart: 0, loss_seen: Default::default(), loss_in_slowstart_checks: 0, rtt_zero: 0, idle_checks: 0 }
     }
 
     fn ceiling(&self, ep: usize, hc: u64) -> u32 {
@@ -142,10 +145,27 @@ impl Oracle for RfcOracle {
                             if *x_after as f64 > bound + 1.0 {
                                 return viol(prop, "slow_start_more_than_doubled", format!("endpoint {}: one feedback took the rate from {} to {} B/s in slow start (RTT {} s, initial window rate {:.1})", ep, x_before, x_after, r, 4380.0 / r), *call);
                             }
+                            // "once loss has been reported it never exceeds the TCP throughput
+                            // equation" does not depend on which mode the computer says it is in:
+                            // the first report of a loss may leave half the previous rate
+                            // (RFC 5348 6.3.1), every later one is bounded by the equation
+                            if *loss_rate > 0.0 {
+                                self.loss_in_slowstart_checks += 1;
+                                let mut bound = x_bps(r, *loss_rate).max(FLOOR as f64);
+                                if !self.loss_seen.contains(&(*ep, *hc)) {
+                                    bound = bound.max(*x_before as f64 / 2.0).max((S / 2.0) / r);
+                                }
+                                if *x_after as f64 > bound + 1.0 {
+                                    return viol(prop, "rate_above_throughput_equation", format!("endpoint {}: allowed rate {} B/s (before: {}) with RTT estimate {} s and loss event rate {} reported, still in slow start: the TCP throughput equation allows {:.1} B/s", ep, x_after, x_before, r, loss_rate, bound), *call);
+                                }
+                            }
                         }
                         _ => {
                             return viol(prop, "rate_mode_transition", format!("endpoint {}: rate computer went from mode {} to mode {} on feedback", ep, mode_before, mode_after), *call);
                         }
+                    }
+                    if *loss_rate > 0.0 {
+                        self.loss_seen.insert((*ep, *hc));
                     }
                     self.last_x.insert((*ep, *hc), *x_after);
                 }
@@ -228,6 +248,7 @@ impl Oracle for RfcOracle {
         a("throughput_equation_checks", self.eqn_checks);
         a("slow_start_checks", self.slowstart_checks);
         a("slow_start_exits", self.leave_slowstart);
+        a("loss_reported_while_in_slow_start_checks", self.loss_in_slowstart_checks);
         a("feedback_with_rtt_sample_zero", self.rtt_zero);
         a("rate_unchanged_between_events_checks", self.idle_checks);
     }
